@@ -221,7 +221,7 @@ TEMPLATES = {
 }
 
 
-def mk_doc(ex, template, lens):
+def mk_doc(ex, template, lens, prefix=None):
     L = ex.prog.layout
     tokens = []
     payload = []
@@ -234,6 +234,10 @@ def mk_doc(ex, template, lens):
             bs = [ex.fresh("t", 8) for _ in range(n)]
             for b in bs:
                 ex.assume(z3.Or(*[b == a for a in HTML_ALPHA]))
+            if prefix and ti == prefix[0] + 1:
+                # user text that starts with a concrete structure the Splitter treats specially
+                bs = list(prefix[1].encode()) + bs
+                n = len(bs)
             payload.extend(bs)
             user.append(bs)
             vi = L.variant_index("Token", "Text")
@@ -260,7 +264,7 @@ def run_html_job(job, build):
     out = {"stats": None, "cex": [], "inconclusive": [], "samples": [], "nontrivial": 0, "obligations": 0}
 
     def harness(ex):
-        doc, user = mk_doc(ex, template, lens)
+        doc, user = mk_doc(ex, template, lens, job.get("prefix"))
         res = ex.call(parse_callee("Doc::render_html"), [Ref(Cell(doc, "doc"), ()), full, False])
         return (user, res)
 
@@ -276,7 +280,7 @@ def run_html_job(job, build):
         bad = None
         mbad = None
         for b in ob:
-            if is_sym(b):
+            if is_sym(b) and not job.get("prefix"):
                 c = z3.Or(b == 0x3C, b == 0x3E)
                 if ex.check(c) == z3.sat:
                     ex.solver.push()
@@ -287,6 +291,20 @@ def run_html_job(job, build):
                     break
         m = mbad or ex.model()
         text = "".join(chr(b) if isinstance(b, int) else "·" for b in ob)  # user bytes as a neutral dot
+        if job.get("prefix") and bad is None:
+            # with a concrete prefix the user part is concrete text too: a symbolic user byte that can be `<`
+            # must not reach the output (checked byte-wise below), and the concrete prefix contains none
+            for b in ob:
+                if is_sym(b):
+                    c = z3.Or(b == 0x3C, b == 0x3E)
+                    if ex.check(c) == z3.sat:
+                        ex.solver.push()
+                        ex.solver.add(c)
+                        mbad = ex.model()
+                        ex.solver.pop()
+                        bad = "a user `<` or `>` inside a code sample reaches the output"
+                        m = mbad
+                        break
         if bad is None:
             stack = []
             for close, tag in parse_tags(text):
@@ -399,6 +417,12 @@ def make_jobs(tier, seed, build):
                 continue
             for full in (True, False):
                 jobs.append({"id": "html:%s:%s:%d" % (tname, ",".join(map(str, lens)), int(full)), "kind": "html", "template": tname, "lens": list(lens), "full": full})
+    # text that starts with the structures the Splitter treats as code samples / paragraph breaks
+    for prefix in ("\n    ", "\n\n    ", "\n\n```\n", "a\n\n"):
+        for tname in ("plain", "block"):
+            for n in (1, 2):
+                for full in (True, False):
+                    jobs.append({"id": "html:%s:prefix%r:%d:%d" % (tname, prefix, n, int(full)), "kind": "html", "template": tname, "lens": [n], "full": full, "prefix": [0, prefix]})
     for gname in ("c1", "c2", "c3", "c4", "h2", "g1"):
         jobs.append({"id": "sections:%s" % gname, "kind": "sections", "grammar": gname})
     return jobs
